@@ -90,4 +90,8 @@ theorem cdf_translated_in_unit {s : St α} (h : WF s) (x : α) {mn mx : α} (hmi
 theorem quantile_guard_translated (q : α) :
     Pds.Generated.Kernels.td_quantile_guard q = if 0 ≤ q ∧ q ≤ 1 then Flow.ret true else Flow.panic := td_quantile_guard_eq q
 
+/-- the NaN assertion of the public `cdf` as translated -/
+theorem cdf_guard_translated (x : α) :
+    Pds.Generated.Kernels.td_cdf_guard x = if KOps.isNan x = true then Flow.panic else Flow.ret true := td_cdf_guard_eq x
+
 end Pds.Tie.C15
